@@ -1,6 +1,6 @@
 (* Dispatch.v — one entry point `run op arg` for every executable model and spec.
    Used identically by the extracted runner (coq/extract) and by `Eval vm_compute` re-evaluation. *)
-From Verif Require Import PyVal Rows Enc ComparableGen AsIndicesGen Order Sort SortSpec Dedup DedupSpec Basics SetOps SetSpec Joins Relational HashJoins Reductions GroupSpec Machines Selects Transforms Reshape Csv Tees.
+From Verif Require Import PyVal Rows Enc ComparableGen AsIndicesGen Order Sort SortSpec Dedup DedupSpec Basics SetOps SetSpec Joins Relational HashJoins Reductions GroupSpec Machines Selects Transforms Reshape Csv Tees TempFiles.
 Open Scope Z_scope.
 
 Definition run_cmp (arg : val) : val :=
@@ -893,6 +893,52 @@ Definition run_tee (arg : val) : val :=
   | _ => bad_input
   end.
 
+(* ---- temporary files (C18) -------------------------------------------------------------------------------------------- *)
+Definition dec_top (v : val) : option top :=
+  match v with
+  | VSeq _ [a] => match dec_Z a with Some 0 => Some TNew | Some 3 => Some TDropView | _ => None end
+  | VSeq _ [a; k] => match dec_Z a, dec_nat k with
+                     | Some 1, Some k' => Some (TNext k')
+                     | Some 2, Some k' => Some (TDropIter k')
+                     | _, _ => None
+                     end
+  | _ => None
+  end.
+Definition enc_tout (o : option tout) : val :=
+  match o with
+  | None => VNone
+  | Some TRow => vstr "r" | Some TStop => vstr "s" | Some TRaise => vstr "e" | Some TMissing => vstr "m"
+  end.
+
+(* tf_run: (n, buffersize|None, cache, fail|None, ops) -> ([(what next() returned | None, files on disk)], all released?) *)
+Definition run_tf_run (arg : val) : val :=
+  match arg with
+  | VSeq _ [nv; bsv; cachev; failv; VSeq _ opsv] =>
+      match dec_nat nv, dec_opt dec_nat bsv, dec_bool cachev, dec_opt dec_nat failv, dec_all dec_top opsv with
+      | Some n, Some bs, Some cache, Some fail, Some ops =>
+          let c := {| tf_n := n; tf_bs := bs; tf_cache := cache; tf_fail := fail |} in
+          let '(tr, sf) := tf_run c ops tf_init in
+          vtuple [vlist (map (fun e => vtuple [enc_tout (fst e); vnat (snd e * chunks_per_group c)]) tr);
+                  vbool (all_released sf)]
+      | _, _, _, _, _ => bad_input
+      end
+  | _ => bad_input
+  end.
+
+(* df_run: [(op, did this next() find the generator exhausted)] -> [does the spill file exist after the operation] *)
+Definition run_df_run (arg : val) : val :=
+  match arg with
+  | VSeq _ opsv =>
+      match dec_all (fun v => match v with
+                              | VSeq _ [o; l] => match dec_top o, dec_bool l with Some o', Some l' => Some (o', l') | _, _ => None end
+                              | _ => None
+                              end) opsv with
+      | Some ops => let '(tr, sf) := df_run ops df_init in vtuple [vlist (map vbool tr); vbool (df_released sf)]
+      | None => bad_input
+      end
+  | _ => bad_input
+  end.
+
 Definition run (op : list Z) (arg : val) : val :=
   if zs_eqb op "cmp" then run_cmp arg
   else if zs_eqb op "sort" then run_sort arg
@@ -923,6 +969,8 @@ Definition run (op : list Z) (arg : val) : val :=
   else if zs_eqb op "csv_write" then run_csv_write arg
   else if zs_eqb op "csv_parse" then run_csv_parse arg
   else if zs_eqb op "tee" then run_tee arg
+  else if zs_eqb op "tf_run" then run_tf_run arg
+  else if zs_eqb op "df_run" then run_df_run arg
   else if zs_eqb op "addfields" then run_addfields arg
   else if zs_eqb op "select" then run_select arg
   else if zs_eqb op "rowslice" then run_rowslice arg
